@@ -141,6 +141,12 @@ func check[C any](r *runner, gen func(rt *rapid.T) C, eval func(c C) string) {
 	})
 }
 
+// watchdog bounds one case; it is far above what a case costs even on a
+// saturated machine (a case takes micro- to milliseconds; C17's many rounds
+// under the race detector up to a second), so only code that does not return
+// at all can trip it.
+var watchdog = 180 * time.Second
+
 // guarded evaluates one case with a watchdog: generated code that never
 // returns would otherwise wedge the whole batch.
 func guarded[C any](eval func(c C) string, c C) string {
@@ -159,7 +165,7 @@ func guarded[C any](eval func(c C) string, c C) string {
 	select {
 	case x := <-ch:
 		return x.msg
-	case <-time.After(60 * time.Second):
-		return "HANG: the generated code did not return within 60 s on this case"
+	case <-time.After(watchdog):
+		return fmt.Sprintf("HANG: the generated code did not return within %v on this case", watchdog)
 	}
 }
